@@ -1,15 +1,18 @@
 // Package pqueue holds the checks for queue.Queue (C07): the array-based
 // ring-buffer deque must behave as a plain sequence across wrap-around and
-// regrowth.
+// regrowth, whatever the element type it is instantiated with (Case.Elem).
 package pqueue
 
 import (
 	"fmt"
 	"math"
+	"math/bits"
 	"runtime/debug"
+	"strconv"
 	"strings"
 
 	"github.com/creachadair/mds/queue"
+	"verif/elem"
 	"verif/vk"
 )
 
@@ -24,28 +27,82 @@ type Op struct {
 type Case struct {
 	Ctor string `json:"ctor"`        // "zero" (var q Queue), "new" (New()), "size" (NewSize(N))
 	N    int    `json:"n,omitempty"` // argument of NewSize
+	// Elem is the element kind the queue is instantiated with: "" (= "int",
+	// Queue[int] holding the serial numbers themselves), "string", "i16",
+	// "u8", "wide", "ptr", "bytes", "any" (see package elem and specs below).
+	Elem string `json:"elem,omitempty"`
 	Ops  []Op   `json:"ops"`
 }
 
 const maxRun = 20
 
-// qrun interprets a Case.
-type qrun struct {
-	c      Case
-	q      *queue.Queue[int]
-	ref    []int // reference sequence, front first
-	serial int   // values are 1,2,3,... so loss, duplication and reordering show
-	step   int
-	sub    int
+// KindU8 is a 1-byte element kind (uint8), which package elem does not have:
+// the first allocation append makes for such a buffer has room for 8
+// elements (4 for the 2-byte "i16"), so the ring starts with another shape
+// than for elements of 8 bytes and more (1, 2, 4, ...).
+const KindU8 = "u8"
 
-	// Shadow of the documented ring-buffer algorithm (cap = len(sh), head, n).
-	// It only LABELS cases (which path the history should have taken); it is
-	// never compared with anything.  sh is a real []int grown by the same
-	// append calls, so its capacity follows the runtime's growth rule for the
-	// same element type.
-	sh          []int
-	shHead      int
-	shN         int
+// Kinds lists the element kinds besides "", in the order in which the
+// generators cycle through them.
+var Kinds = []string{elem.Str, elem.I16, KindU8, elem.Wide, elem.Ptr, elem.Bytes, elem.Any}
+
+// spec says how one element kind carries the serial numbers 1,2,3,...
+type spec[T any] struct {
+	kit elem.Kit[T]
+	// val gives the (V, ID) from which kit.Make builds the element with serial
+	// number s:
+	//   "" / "int"        V = s
+	//   "i16", "u8"       V = s wrapped into 1..65535 (as int16) / 1..255, never the zero
+	//                     value; the expected value at every position stays exact
+	//   "string", "wide"  V = ID = s
+	//   "ptr", "any"      V = parity of the number of one bits of s, ID = s: half of all
+	//                     pointees are deeply equal to each other (and to whatever an
+	//                     overwritten buffer slot held); the elements differ by identity
+	//   "bytes"           one of four texts chosen by two such bits, every time in a new
+	//                     backing array
+	val func(s int) (v, id int)
+	// named: messages call the element with serial number s "#s"; otherwise
+	// the element is an integer and is printed as such.
+	named  bool
+	isZero func(T) bool
+	// isSerial (integer kinds) reports whether x is kit.Make(val(s)).
+	isSerial func(x T, s int) bool
+	// intact checks the content of an element whose identity (kit.Same) is not
+	// all there is to it (pointee, bytes); nil for the kinds compared with ==.
+	intact func(x T, s int) bool
+	// content numbers the (few) contents of such a kind: elements of equal
+	// content number are deeply equal to each other.
+	content func(s int) uint
+}
+
+func eqZero[T comparable](x T) bool { var z T; return x == z }
+
+// parity is the Thue-Morse bit of s: it has no period, so it does not fall in
+// step with the power-of-two strides at which ring slots are reused.
+func parity(s int) int { return bits.OnesCount(uint(s)) & 1 }
+
+func valSerial(s int) (int, int)       { return s, 0 }
+func valBoth(s int) (int, int)         { return s, s }
+func valI16(s int) (int, int)          { return int(int16(uint16(1 + (s-1)%65535))), 0 }
+func valU8(s int) (int, int)           { return 1 + (s-1)%255, 0 }
+func valParity(s int) (int, int)       { return parity(s), s }
+func valBytes(s int) (int, int)        { return parity(s), 3 * parity(s>>1) }
+func bytesText(s int) string           { return bytesTexts[contentBytes(s)] }
+func contentParity(s int) uint         { return uint(parity(s)) }
+func contentBytes(s int) uint          { return uint(parity(s) + 2*parity(s>>1)) }
+func u8Make(v, _ int) uint8            { return uint8(v) }
+func u8V(x uint8) int                  { return int(x) }
+func u8ID(uint8) int                   { return 0 }
+func u8Same(a, b uint8) bool           { return a == b }
+func u8Cmp(a, b uint8) int             { return int(a) - int(b) }
+func bytesZero(b []byte) bool          { return b == nil }
+func bytesIntact(b []byte, s int) bool { return string(b) == bytesText(s) }
+
+var bytesTexts = [4]string{elem.EncodeStr(0, 0), elem.EncodeStr(1, 0), elem.EncodeStr(0, 3), elem.EncodeStr(1, 3)}
+
+// qstats is what a run reports for classification.
+type qstats struct {
+	// Labels from the shadow of the documented ring-buffer algorithm; see qrun.
 	extremePeek int // Peek at an offset near math.MinInt / math.MaxInt
 	rotAdd      int // Add on a full buffer with head > 0 (rotate, then grow)
 	rotPush     int // Push on a full buffer with head > 0
@@ -59,9 +116,34 @@ type qrun struct {
 	maxLen      int
 	emptied     int // became empty by Pop/PopLast
 	clears      int
+	equalStore  int // "ptr"/"any"/"bytes": an element deeply equal to an element supplied before it
 }
 
-func (r *qrun) errf(format string, args ...any) string {
+// qrun interprets a Case with elements of type T.
+type qrun[T any] struct {
+	qstats
+	c      Case
+	sp     *spec[T]
+	q      *queue.Queue[T]
+	ref    []int // reference sequence, front first
+	refE   []T   // named kinds: the elements handed to the queue for ref, in step with it
+	els    []T   // named kinds: els[s-1] is the element made for serial number s (for messages)
+	seen   uint  // set of content numbers supplied so far
+	serial int   // values are 1,2,3,... so loss, duplication and reordering show
+	step   int
+	sub    int
+
+	// Shadow of the documented ring-buffer algorithm (cap = len(sh), head, n).
+	// It only LABELS cases (which path the history should have taken); it is
+	// never compared with anything.  sh is a real []T grown by the same
+	// append calls, so its capacity follows the runtime's growth rule for the
+	// same element type.
+	sh     []T
+	shHead int
+	shN    int
+}
+
+func (r *qrun[T]) errf(format string, args ...any) string {
 	op := "constructor"
 	if r.step >= len(r.c.Ops) {
 		op = "final check"
@@ -72,17 +154,24 @@ func (r *qrun) errf(format string, args ...any) string {
 	if ctor == "size" {
 		ctor = fmt.Sprintf("NewSize(%d)", r.c.N)
 	}
+	if r.c.Elem != "" {
+		ctor += " elem=" + r.c.Elem
+		if r.sp.named {
+			ctor += ", #k is the k-th element handed to Add/Push"
+		}
+	}
 	return fmt.Sprintf("%s (sub-step %d, queue %s): %s", op, r.sub, ctor, fmt.Sprintf(format, args...))
 }
 
 // ---- shadow (labels only) --------------------------------------------------
 
-func (r *qrun) shGrow() {
-	w := append(r.sh, 0)
+func (r *qrun[T]) shGrow() {
+	var zero T
+	w := append(r.sh, zero)
 	r.sh = w[:cap(w)]
 }
 
-func (r *qrun) shAdd() {
+func (r *qrun[T]) shAdd() {
 	if r.shN < len(r.sh) {
 		if r.shHead+r.shN >= len(r.sh) {
 			r.wrapAdd++
@@ -100,7 +189,7 @@ func (r *qrun) shAdd() {
 	r.shN++
 }
 
-func (r *qrun) shPush() {
+func (r *qrun[T]) shPush() {
 	if r.shN < len(r.sh) {
 		pos := r.shHead - 1
 		if pos < 0 {
@@ -122,7 +211,7 @@ func (r *qrun) shPush() {
 	r.shN++
 }
 
-func (r *qrun) shPop() {
+func (r *qrun[T]) shPop() {
 	if r.shN == 0 {
 		return
 	}
@@ -139,7 +228,7 @@ func (r *qrun) shPop() {
 	}
 }
 
-func (r *qrun) shPopLast() {
+func (r *qrun[T]) shPopLast() {
 	if r.shN == 0 {
 		return
 	}
@@ -155,15 +244,84 @@ func (r *qrun) shPopLast() {
 
 // ---- oracle ------------------------------------------------------------------
 
-func brief(vs []int) string {
-	if len(vs) > 24 {
-		return fmt.Sprintf("%v…(%d)", vs[:24], len(vs))
+func briefNames(n int, name func(i int) string) string {
+	names := make([]string, min(n, 24))
+	for i := range names {
+		names[i] = name(i)
 	}
-	return fmt.Sprint(vs)
+	s := "[" + strings.Join(names, " ") + "]"
+	if n > 24 {
+		return fmt.Sprintf("%s…(%d)", s, n)
+	}
+	return s
+}
+
+// want names the element with serial number s the way show does.
+func (r *qrun[T]) want(s int) string {
+	if r.sp.named {
+		return "#" + strconv.Itoa(s)
+	}
+	v, _ := r.sp.val(s)
+	return strconv.Itoa(v)
+}
+
+// zero names the zero value of T.
+func (r *qrun[T]) zero() string {
+	if r.sp.named {
+		return "the zero value"
+	}
+	return "0"
+}
+
+// show names an element that came out of the queue: the integer itself, or #s
+// for the element made for serial number s.
+func (r *qrun[T]) show(x T) (out string) {
+	defer func() {
+		if recover() != nil {
+			out = fmt.Sprintf("<%v, not an element handed to the queue>", any(x))
+		}
+	}()
+	if !r.sp.named {
+		return strconv.Itoa(r.sp.kit.V(x))
+	}
+	if r.sp.isZero(x) {
+		return "<zero value>"
+	}
+	for i, e := range r.els {
+		if r.sp.kit.Same(x, e) {
+			if r.sp.intact != nil && !r.sp.intact(x, i+1) {
+				return fmt.Sprintf("#%d(content changed to %v)", i+1, any(x))
+			}
+			return "#" + strconv.Itoa(i+1)
+		}
+	}
+	if b, ok := any(x).([]byte); ok {
+		return fmt.Sprintf("<%q, not an element handed to the queue>", b)
+	}
+	return fmt.Sprintf("<%v, not an element handed to the queue>", any(x))
+}
+
+func (r *qrun[T]) brief(ref []int) string {
+	return briefNames(len(ref), func(i int) string { return r.want(ref[i]) })
+}
+
+func (r *qrun[T]) briefE(vs []T) string {
+	return briefNames(len(vs), func(i int) string { return r.show(vs[i]) })
+}
+
+// is reports whether got is the element at position i of the reference: the
+// very element that was handed to the queue (==; the same pointer; the same
+// backing array), with its content untouched.  The integer kinds have no
+// identity beyond the value, which follows from the serial number.
+func (r *qrun[T]) is(got T, i int) bool {
+	if !r.sp.named {
+		return r.sp.isSerial(got, r.ref[i])
+	}
+	return r.sp.kit.Same(got, r.refE[i]) && (r.sp.intact == nil || r.sp.intact(got, r.ref[i]))
 }
 
 // check compares every observer of the queue with the reference sequence.
-func (r *qrun) check() string {
+func (r *qrun[T]) check() string {
 	q, ref := r.q, r.ref
 	n := len(ref)
 	if n > r.maxLen {
@@ -173,43 +331,43 @@ func (r *qrun) check() string {
 		r.wrapPeek++
 	}
 	if got := q.Len(); got != n {
-		return r.errf("Len = %d, reference sequence has %d elements %s", got, n, brief(ref))
+		return r.errf("Len = %d, reference sequence has %d elements %s", got, n, r.brief(ref))
 	}
 	if got := q.IsEmpty(); got != (n == 0) {
 		return r.errf("IsEmpty = %v, reference sequence has %d elements", got, n)
 	}
-	wantFront := 0
-	if n > 0 {
-		wantFront = ref[0]
-	}
-	if got := q.Front(); got != wantFront {
-		return r.errf("Front = %d, want %d (reference %s)", got, wantFront, brief(ref))
+	if got := q.Front(); n == 0 {
+		if !r.sp.isZero(got) {
+			return r.errf("Front = %s, want %s (reference %s)", r.show(got), r.zero(), r.brief(ref))
+		}
+	} else if !r.is(got, 0) {
+		return r.errf("Front = %s, want %s (reference %s)", r.show(got), r.want(ref[0]), r.brief(ref))
 	}
 	sl := q.Slice()
 	if n == 0 && sl != nil {
-		return r.errf("Slice of an empty queue = %v (len %d), want nil", sl, len(sl))
+		return r.errf("Slice of an empty queue = %s (len %d), want nil", r.briefE(sl), len(sl))
 	}
 	if len(sl) != n {
-		return r.errf("Slice = %s, reference %s", brief(sl), brief(ref))
+		return r.errf("Slice = %s, reference %s", r.briefE(sl), r.brief(ref))
 	}
 	for i := range sl {
-		if sl[i] != ref[i] {
-			return r.errf("Slice[%d] = %d, reference has %d: got %s want %s", i, sl[i], ref[i], brief(sl), brief(ref))
+		if !r.is(sl[i], i) {
+			return r.errf("Slice[%d] = %s, reference has %s: got %s want %s", i, r.show(sl[i]), r.want(ref[i]), r.briefE(sl), r.brief(ref))
 		}
 	}
 	i := 0
 	bad := -1
-	q.Each(func(v int) bool {
-		if bad < 0 && (i >= n || v != ref[i]) {
+	q.Each(func(v T) bool {
+		if bad < 0 && (i >= n || !r.is(v, i)) {
 			bad = i
 		}
 		i++
 		return true
 	})
 	if bad >= 0 || i != n {
-		var got []int
-		q.Each(func(v int) bool { got = append(got, v); return len(got) < n+8 })
-		return r.errf("Each lists %s, reference %s", brief(got), brief(ref))
+		var got []T
+		q.Each(func(v T) bool { got = append(got, v); return len(got) < n+8 })
+		return r.errf("Each lists %s, reference %s", r.briefE(got), r.brief(ref))
 	}
 	for off := -n - 2; off <= n+2; off++ {
 		if msg := r.checkPeek(off); msg != "" {
@@ -219,7 +377,7 @@ func (r *qrun) check() string {
 	return ""
 }
 
-func (r *qrun) checkPeek(off int) string {
+func (r *qrun[T]) checkPeek(off int) string {
 	n := len(r.ref)
 	idx := off
 	if idx < 0 {
@@ -228,35 +386,35 @@ func (r *qrun) checkPeek(off int) string {
 	got, ok := r.q.Peek(off)
 	if idx < 0 || idx >= n {
 		if ok {
-			return r.errf("Peek(%d) = (%d, true) on a queue of %d elements, want ok = false", off, got, n)
+			return r.errf("Peek(%d) = (%s, true) on a queue of %d elements, want ok = false", off, r.show(got), n)
 		}
 		return ""
 	}
-	if !ok || got != r.ref[idx] {
-		return r.errf("Peek(%d) = (%d, %v), want (%d, true) (reference %s)", off, got, ok, r.ref[idx], brief(r.ref))
+	if !ok || !r.is(got, idx) {
+		return r.errf("Peek(%d) = (%s, %v), want (%s, true) (reference %s)", off, r.show(got), ok, r.want(r.ref[idx]), r.brief(r.ref))
 	}
 	return ""
 }
 
-func (r *qrun) checkEachStop(j int) string {
+func (r *qrun[T]) checkEachStop(j int) string {
 	n := len(r.ref)
 	if n == 0 {
 		calls := 0
-		r.q.Each(func(int) bool { calls++; return true })
+		r.q.Each(func(T) bool { calls++; return true })
 		if calls != 0 {
 			return r.errf("Each on an empty queue made %d callbacks", calls)
 		}
 		return ""
 	}
 	j = j%n + 1
-	var got []int
-	r.q.Each(func(v int) bool { got = append(got, v); return len(got) < j })
+	var got []T
+	r.q.Each(func(v T) bool { got = append(got, v); return len(got) < j })
 	if len(got) != j {
 		return r.errf("Each made %d callbacks although the callback returned false at #%d", len(got), j)
 	}
 	for i := range got {
-		if got[i] != r.ref[i] {
-			return r.errf("Each[%d] = %d, reference has %d", i, got[i], r.ref[i])
+		if !r.is(got[i], i) {
+			return r.errf("Each[%d] = %s, reference has %s", i, r.show(got[i]), r.want(r.ref[i]))
 		}
 	}
 	return ""
@@ -264,57 +422,92 @@ func (r *qrun) checkEachStop(j int) string {
 
 // ---- operations ----------------------------------------------------------------
 
-func (r *qrun) doAdd() string {
+// next makes the element for the next serial number.  For the kinds with an
+// identity every call gives a new element (a new pointer, a new backing
+// array), also when its content equals that of an earlier one.
+func (r *qrun[T]) next() T {
 	r.serial++
-	r.q.Add(r.serial)
+	v, id := r.sp.val(r.serial)
+	e := r.sp.kit.Make(v, id)
+	if r.sp.content != nil {
+		if bit := uint(1) << r.sp.content(r.serial); r.seen&bit != 0 {
+			r.equalStore++
+		} else {
+			r.seen |= bit
+		}
+	}
+	if r.sp.named {
+		r.els = append(r.els, e)
+	}
+	return e
+}
+
+func (r *qrun[T]) doAdd() string {
+	e := r.next()
+	r.q.Add(e)
 	r.ref = append(r.ref, r.serial)
+	if r.sp.named {
+		r.refE = append(r.refE, e)
+	}
 	r.shAdd()
 	return r.check()
 }
 
-func (r *qrun) doPush() string {
-	r.serial++
-	r.q.Push(r.serial)
+func (r *qrun[T]) doPush() string {
+	e := r.next()
+	r.q.Push(e)
 	r.ref = append([]int{r.serial}, r.ref...)
+	if r.sp.named {
+		r.refE = append([]T{e}, r.refE...)
+	}
 	r.shPush()
 	return r.check()
 }
 
-func (r *qrun) doPop() string {
+func (r *qrun[T]) doPop() string {
 	got, ok := r.q.Pop()
 	if len(r.ref) == 0 {
-		if ok || got != 0 {
-			return r.errf("Pop on an empty queue = (%d, %v), want (0, false)", got, ok)
+		if ok || !r.sp.isZero(got) {
+			return r.errf("Pop on an empty queue = (%s, %v), want (%s, false)", r.show(got), ok, r.zero())
 		}
 	} else {
+		match := r.is(got, 0)
 		want := r.ref[0]
 		r.ref = r.ref[1:]
-		if !ok || got != want {
-			return r.errf("Pop = (%d, %v), want (%d, true); rest of the reference %s", got, ok, want, brief(r.ref))
+		if r.sp.named {
+			r.refE = r.refE[1:]
+		}
+		if !ok || !match {
+			return r.errf("Pop = (%s, %v), want (%s, true); rest of the reference %s", r.show(got), ok, r.want(want), r.brief(r.ref))
 		}
 	}
 	r.shPop()
 	return r.check()
 }
 
-func (r *qrun) doPopLast() string {
+func (r *qrun[T]) doPopLast() string {
 	got, ok := r.q.PopLast()
 	if len(r.ref) == 0 {
-		if ok || got != 0 {
-			return r.errf("PopLast on an empty queue = (%d, %v), want (0, false)", got, ok)
+		if ok || !r.sp.isZero(got) {
+			return r.errf("PopLast on an empty queue = (%s, %v), want (%s, false)", r.show(got), ok, r.zero())
 		}
 	} else {
-		want := r.ref[len(r.ref)-1]
-		r.ref = r.ref[:len(r.ref)-1]
-		if !ok || got != want {
-			return r.errf("PopLast = (%d, %v), want (%d, true); rest of the reference %s", got, ok, want, brief(r.ref))
+		last := len(r.ref) - 1
+		match := r.is(got, last)
+		want := r.ref[last]
+		r.ref = r.ref[:last]
+		if r.sp.named {
+			r.refE = r.refE[:last]
+		}
+		if !ok || !match {
+			return r.errf("PopLast = (%s, %v), want (%s, true); rest of the reference %s", r.show(got), ok, r.want(want), r.brief(r.ref))
 		}
 	}
 	r.shPopLast()
 	return r.check()
 }
 
-func (r *qrun) apply(op Op) string {
+func (r *qrun[T]) apply(op Op) string {
 	r.sub = 0
 	rep := func(n int, f func() string) string {
 		for i := 0; i < n; i++ {
@@ -340,7 +533,7 @@ func (r *qrun) apply(op Op) string {
 		return r.doPopLast()
 	case "clear":
 		r.q.Clear()
-		r.ref = nil
+		r.ref, r.refE = nil, nil
 		r.sh, r.shHead, r.shN = nil, 0, 0
 		r.clears++
 		return r.check()
@@ -377,10 +570,11 @@ func (r *qrun) apply(op Op) string {
 	return r.errf("VK-INFRA unknown op kind %q", op.K)
 }
 
-// runQueue interprets c and returns the run (for classification) and "" or a
-// violation message.
-func runQueue(c Case) (r *qrun, msg string) {
-	r = &qrun{c: c, step: -1}
+// runQueueT interprets c with elements of type T and returns the run's labels
+// (for classification) and "" or a violation message.
+func runQueueT[T any](c Case, sp *spec[T]) (st *qstats, msg string) {
+	r := &qrun[T]{c: c, sp: sp, step: -1}
+	st = &r.qstats
 	defer func() {
 		// an unexpected panic of the queue is a violation; name the operation
 		if p := recover(); p != nil {
@@ -388,39 +582,124 @@ func runQueue(c Case) (r *qrun, msg string) {
 			if len(lines) > 24 {
 				lines = lines[:24]
 			}
-			msg = r.errf("unexpected panic: %v (reference %s)", p, brief(r.ref)) + "\n" + strings.Join(lines, "\n")
+			msg = r.errf("unexpected panic: %v (reference %s)", p, r.brief(r.ref)) + "\n" + strings.Join(lines, "\n")
 		}
 	}()
 	switch c.Ctor {
 	case "zero":
-		var q queue.Queue[int]
+		var q queue.Queue[T]
 		r.q = &q
 	case "new":
-		r.q = queue.New[int]()
+		r.q = queue.New[T]()
 	case "size":
 		n := c.N
 		if n < 0 {
 			n = 0
 		}
-		r.q = queue.NewSize[int](n)
-		r.sh = make([]int, n)
+		r.q = queue.NewSize[T](n)
+		r.sh = make([]T, n)
 	default:
-		return r, r.errf("VK-INFRA unknown constructor %q", c.Ctor)
+		return st, r.errf("VK-INFRA unknown constructor %q", c.Ctor)
 	}
 	if msg := r.check(); msg != "" {
-		return r, msg
+		return st, msg
 	}
 	for i, op := range c.Ops {
 		r.step = i
 		if msg := r.apply(op); msg != "" {
-			return r, msg
+			return st, msg
 		}
 	}
 	r.step, r.sub = len(c.Ops), 0
-	return r, r.check()
+	return st, r.check()
 }
 
-func (r *qrun) nonTrivial() bool { return r.rotAdd+r.rotPush > 0 }
+// The specs of the element kinds (built once: the kits are stateless).
+var (
+	ptrKit, anyKit = elem.PtrKit(), elem.AnyKit()
+
+	i16Kit, bytesKit = elem.I16Kit(), elem.BytesKit()
+
+	specInt = spec[int]{kit: elem.IntKit(), val: valSerial, isZero: eqZero[int],
+		isSerial: func(x int, s int) bool { return x == s }}
+	specI16 = spec[int16]{kit: i16Kit, val: valI16, isZero: eqZero[int16],
+		isSerial: func(x int16, s int) bool { v, _ := valI16(s); return x == i16Kit.Make(v, 0) }}
+	specU8 = spec[uint8]{kit: elem.Kit[uint8]{Kind: KindU8, Make: u8Make, V: u8V, ID: u8ID, Same: u8Same, Cmp: u8Cmp}, val: valU8, isZero: eqZero[uint8],
+		isSerial: func(x uint8, s int) bool { v, _ := valU8(s); return x == u8Make(v, 0) }}
+	specStr  = spec[string]{kit: elem.StrKit(), val: valBoth, named: true, isZero: eqZero[string]}
+	specWide = spec[elem.WideElem]{kit: elem.WideKit(), val: valBoth, named: true, isZero: eqZero[elem.WideElem]}
+	specPtr  = spec[*elem.Cell]{kit: ptrKit, val: valParity, named: true, isZero: eqZero[*elem.Cell],
+		intact: func(x *elem.Cell, s int) bool { return ptrKit.V(x) == parity(s) }, content: contentParity}
+	specAny = spec[any]{kit: anyKit, val: valParity, named: true, isZero: eqZero[any],
+		intact: func(x any, s int) bool { return anyKit.V(x) == parity(s) }, content: contentParity}
+	specBytes = spec[[]byte]{kit: bytesKit, val: valBytes, named: true, isZero: bytesZero,
+		intact: bytesIntact, content: contentBytes}
+)
+
+// runQueue instantiates the interpreter with the element kind of the case.
+func runQueue(c Case) (*qstats, string) {
+	switch c.Elem {
+	case "", elem.Int:
+		return runQueueT(c, &specInt)
+	case elem.I16:
+		return runQueueT(c, &specI16)
+	case KindU8:
+		return runQueueT(c, &specU8)
+	case elem.Str:
+		return runQueueT(c, &specStr)
+	case elem.Wide:
+		return runQueueT(c, &specWide)
+	case elem.Ptr:
+		// The side table of IDs is shared by all goroutines, so it is reset but
+		// never read here: identity is checked against the elements themselves.
+		elem.ResetPtr()
+		return runQueueT(c, &specPtr)
+	case elem.Any:
+		elem.ResetPtr()
+		return runQueueT(c, &specAny)
+	case elem.Bytes:
+		return runQueueT(c, &specBytes)
+	}
+	return &qstats{}, fmt.Sprintf("constructor (queue %s): VK-INFRA unknown element kind %q", c.Ctor, c.Elem)
+}
+
+func capsOf[T any](n int) []int {
+	var s []T
+	var out []int
+	for len(out) < n {
+		var zero T
+		w := append(s, zero)
+		s = w[:cap(w)]
+		out = append(out, len(s))
+	}
+	return out
+}
+
+// FirstCaps returns the first n buffer lengths a queue of the given element
+// kind goes through when it grows from no storage the documented way (append,
+// then use the whole capacity): 1, 2, 4, ... for elements of 8 bytes and
+// more, 4, 8, ... for "i16", 8, 16, ... for "u8".  For the generators.
+func FirstCaps(kind string, n int) []int {
+	switch kind {
+	case elem.I16:
+		return capsOf[int16](n)
+	case KindU8:
+		return capsOf[uint8](n)
+	case elem.Str:
+		return capsOf[string](n)
+	case elem.Wide:
+		return capsOf[elem.WideElem](n)
+	case elem.Ptr:
+		return capsOf[*elem.Cell](n)
+	case elem.Any:
+		return capsOf[any](n)
+	case elem.Bytes:
+		return capsOf[[]byte](n)
+	}
+	return capsOf[int](n)
+}
+
+func (r *qstats) nonTrivial() bool { return r.rotAdd+r.rotPush > 0 }
 
 func runC07(c Case, o *vk.Obs) string {
 	r, msg := runQueue(c)
@@ -431,6 +710,9 @@ func runC07(c Case, o *vk.Obs) string {
 		o.NonTrivial()
 	}
 	o.Class("ctor=" + c.Ctor)
+	o.Class("elem=" + elemLabel(c.Elem))
+	o.ClassIf(r.nonTrivial(), "rotate_path(shadow)_with_elem="+elemLabel(c.Elem))
+	o.ClassIf(r.equalStore > 0, "new_element_deeply_equal_to_an_earlier_one")
 	o.ClassIf(r.extremePeek > 0, "peek_at_int_range_end")
 	o.ClassIf(r.rotAdd > 0, "full_head>0_then_Add(shadow)")
 	o.ClassIf(r.rotPush > 0, "full_head>0_then_Push(shadow)")
@@ -455,4 +737,12 @@ func runC07(c Case, o *vk.Obs) string {
 		o.Class("maxlen>32")
 	}
 	return ""
+}
+
+// elemLabel is the class label of an element kind.
+func elemLabel(kind string) string {
+	if kind == "" {
+		return "default(int)"
+	}
+	return kind
 }
